@@ -15,6 +15,7 @@ import (
 
 	"github.com/failsafe-go/failsafe-go"
 	"github.com/failsafe-go/failsafe-go/bulkhead"
+	"github.com/failsafe-go/failsafe-go/cachepolicy"
 	"github.com/failsafe-go/failsafe-go/circuitbreaker"
 	"github.com/failsafe-go/failsafe-go/fallback"
 	"github.com/failsafe-go/failsafe-go/hedgepolicy"
@@ -482,6 +483,48 @@ func stressBreaker(seed int64, scale int) int {
 			v.add(fmt.Sprintf("the last state-change event announced %v but the breaker is %v", prev, cb.State()))
 		}
 		evMu.Unlock()
+		// listeners are told about transitions in the order the transitions happen, also when another goroutine causes the next
+		// transition while the listener of the previous one is still running (it is slow here: 300 us)
+		{
+			var mu3 sync.Mutex
+			var path [][2]circuitbreaker.State
+			started := make(chan struct{})
+			var once sync.Once
+			b3 := circuitbreaker.Builder[int]().WithFailureThreshold(1).WithDelay(0).OnStateChanged(func(e circuitbreaker.StateChangedEvent) {
+				first := false
+				once.Do(func() { first = true; close(started) })
+				if first {
+					time.Sleep(300 * time.Microsecond)
+				}
+				mu3.Lock()
+				path = append(path, [2]circuitbreaker.State{e.OldState, e.NewState})
+				mu3.Unlock()
+			})
+			cb3 := b3.Build()
+			doneB := make(chan struct{})
+			go func() {
+				<-started
+				cb3.TryAcquirePermit() // delay 0: open -> half-open
+				close(doneB)
+			}()
+			cb3.RecordFailure() // closed -> open
+			select {
+			case <-doneB:
+			case <-time.After(2 * time.Second):
+				v.add("a permit request concurrent with a state-change listener did not return")
+			}
+			mu3.Lock()
+			prev3 := circuitbreaker.ClosedState
+			for i, ev := range path {
+				if ev[0] != prev3 {
+					v.add(fmt.Sprintf("state-change events out of order under concurrency: event %d is %v>%v after state %v", i, ev[0], ev[1], prev3))
+					break
+				}
+				prev3 = ev[1]
+			}
+			mu3.Unlock()
+			v.count("listener-order")
+		}
 		// "however the execution ends": half-open trials that are cut short by their caller (context cancel, async Cancel), by an
 		// enclosing Timeout, or that panic-free fail / succeed, all give their permit back. Capacity 5 with 3 successes needed:
 		// one or two failed trials do not decide the state, so the breaker stays half-open and all five permits must be free again.
@@ -1076,6 +1119,12 @@ func stressShared(seed int64, scale int) int {
 	for _, s := range stacks {
 		executors = append(executors, failsafe.NewExecutor[int](s...).OnDone(func(e failsafe.ExecutionDoneEvent[int]) { _ = e.Attempts() }))
 	}
+	// one cache policy shared by executions that carry different keys in their contexts: whatever the interleaving, the
+	// value stored under a key is the value computed for that key (C11 per execution)
+	sharedCache := &mapCache{m: map[string]int{}}
+	cp := cachepolicy.Builder[int](sharedCache).Build()
+	cacheKeys := []string{"k10", "k20", "k30", "k40"}
+	cacheEx := failsafe.NewExecutor[int](cp)
 	var wg sync.WaitGroup
 	workers := 12
 	per := 60 * scale
@@ -1154,6 +1203,25 @@ func stressShared(seed int64, scale int) int {
 					}
 					return 1, nil
 				}
+				if i%5 == 4 {
+					// an execution through the shared cache with its own context key; evicted now and then so that misses keep happening
+					k := cacheKeys[r.Intn(len(cacheKeys))]
+					want := int(atoi(k[1:]))
+					if r.Intn(4) == 0 {
+						sharedCache.mu.Lock()
+						delete(sharedCache.m, k)
+						sharedCache.mu.Unlock()
+					}
+					got, err := cacheEx.WithContext(context.WithValue(context.Background(), cachepolicy.CacheKey, k)).Get(func() (int, error) {
+						time.Sleep(time.Duration(r.Intn(100)) * time.Microsecond)
+						return want, nil
+					})
+					if err != nil || got != want {
+						v.add(fmt.Sprintf("execution with cache key %s returned (%d, %v), want (%d, nil)", k, got, err, want))
+					}
+					done.Add(1)
+					continue
+				}
 				func() {
 					defer func() {
 						if p := recover(); p != nil {
@@ -1198,6 +1266,13 @@ func stressShared(seed int64, scale int) int {
 	for i := 0; i < free; i++ {
 		bh.ReleasePermit()
 	}
+	sharedCache.mu.Lock()
+	for k, val := range sharedCache.m {
+		if int(atoi(k[1:])) != val {
+			v.add(fmt.Sprintf("the shared cache holds %d under key %s (C11 under load)", val, k))
+		}
+	}
+	sharedCache.mu.Unlock()
 	v.c["bulkhead-permits-free-at-quiescence"] = free
 	if free != 4 {
 		v.add(fmt.Sprintf("after all executions finished %d of 4 bulkhead permits are available (C06 under load)", free))
